@@ -2,6 +2,7 @@ import CppUModel.Base.Proto
 import CppUModel.Model.LeakDetector
 import CppUModel.Model.LeakReportText
 import CppUModel.Model.LeakPluginDrive
+import CppUModel.Model.LeakOverloads
 /-!
 Replay of `h_c04` / `h_c06` traces through the detector model (shared by `Driver/C04.lean` and
 `Driver/C06.lean`).  Environment inputs (the address the underlying allocator / `PlatformSpecificRealloc`
@@ -23,7 +24,24 @@ structure DState where
   report  : ReportAllocs := { mallocR := default, newR := default, newArrayR := default }   -- MemoryReporterPlugin members
   threadSafe : Bool := false     -- the g* operations go through the thread-safe overloads
   base    : Nat := 0      -- real address of the printed address 0 (environment, from the setup lines)
+  ov      : Ov := Ov.init          -- the switch position of the overloads as PARKED between two operations (see `parkedInit`)
+  stash   : Stash := Stash.empty   -- the script's `GlobalMemoryAllocatorStash`
+  raw     : List (Nat × Nat) := [] -- live blocks the detector does not hold (address, user size): acquired with the overloads
+                                   -- off, or forgotten by `clearAllAccounting`
 deriving Inhabited
+
+/-- the harness parks the switch position between two operations with `saveAndDisableNewDeleteOverloads()` -/
+def park (o : Ov) : Ov := saveAndDisable o
+/-- … and opens it again with `restoreNewDeleteOverloads()` for every operation that uses or changes it -/
+def unpark (o : Ov) : Ov := restoreOverloads o
+
+/-- start of a case: `main` and `init` turn the overloads off, `init` then switches the plain ones on and parks -/
+def parkedInit : Ov := park (turnOnPlain (turnOff (turnOff Ov.init)))
+
+def rawSize (d : DState) (a : Nat) : Nat := ((d.raw.lookup a).getD 0)
+def rawErase (l : List (Nat × Nat)) (a : Nat) : List (Nat × Nat) := l.filter (fun e => e.1 != a)
+
+def currentLine (c : Current) : String := s!"current {c.newA.id} {c.newArrayA.id} {c.mallocA.id}"
 
 def strHex (s : String) : String := Proto.hex s.toUTF8.toList
 def unhexStr (h : String) : String :=
@@ -188,7 +206,8 @@ def modelStepRaw (d : DState) (op : List String) (obs : List (List String)) : DS
     let reg := parseRegistry obs
     let g (i : Nat) : Allocator := (reg[i]?.map (·.alloc)).getD default
     let base := ((obs.find? (fun l => l.head? == some "base")).bind (fun l => l[1]? >>= String.toNat?)).getD 0
-    ({ st := State.init hashPrime, reg := reg, cur := { newA := g 0, newArrayA := g 1, mallocA := g 2 }, base := base },
+    ({ st := State.init hashPrime, reg := reg, cur := { newA := g 0, newArrayA := g 1, mallocA := g 2 }, base := base,
+       ov := parkedInit },
      setupLines reg obs)
   | ["skip"] => (d, [])
   | ["alloc", ai, size, file, line, sep] =>
@@ -226,7 +245,10 @@ def modelStepRaw (d : DState) (op : List String) (obs : List (List String)) : DS
     fin { d with st := r.1 } (groupStage r.2 ++ [s!"stagenow {r.1.stage.toNat}"])
   | ["clear", p] =>
     match periodOf? p with
-    | some p => fin { d with st := clearAllAccounting d.st p } []
+    | some p =>
+      -- the blocks whose records are dropped stay with the client: live, not held by the detector
+      let gone := (d.st.table.buckets.flatten.filter (isInPeriod p)).map (fun n => (n.addr, n.size))
+      fin { d with st := clearAllAccounting d.st p, raw := gone ++ d.raw } []
     | none => (d, ["bad-op"])
   | ["mark"] => fin { d with st := markChecking d.st } []
   | ["plugin", "create"] => fin { d with st := pluginCreate d.st } []
@@ -258,9 +280,36 @@ def modelStepRaw (d : DState) (op : List String) (obs : List (List String)) : DS
   | ["mrp", "post"] =>
     let d' := { d with cur := reportPost d.report d.cur }
     fin d' [] |> addCurrent d'
-  | ["overloads", "threadsafe"] => fin { d with threadSafe := true } []
-  | ["overloads", "plain"] => fin { d with threadSafe := false } []
-  | ["drop", _] => fin d []        -- the client returns an untracked block to the underlying allocator: not the detector's business
+  | ["overloads", "threadsafe"] => fin { d with threadSafe := true, ov := park (turnOnThreadSafe (unpark d.ov)) } []
+  | ["overloads", "plain"] => fin { d with threadSafe := false, ov := park (turnOnPlain (unpark d.ov)) } []
+  | ["ov", what] =>
+    let inside := unpark d.ov
+    let after? : Option Ov :=
+      match what with
+      | "off" => some (turnOff inside)
+      | "plain" => some (turnOnPlain inside)
+      | "threadsafe" => some (turnOnThreadSafe inside)
+      | "save" => some (saveAndDisable inside)
+      | "restore" => some (restoreOverloads inside)
+      | _ => none
+    match after? with
+    | some after => fin { d with ov := park after } [s!"overloaded {if areOverloaded after then 1 else 0}"]
+    | none => (d, ["bad-op"])
+  | ["stash", "save"] => fin { d with stash := stashSaveRun d.cur d.stash } [currentLine d.cur]
+  | ["stash", "restore"] =>
+    let c := stashRestoreRun d.stash d.cur
+    fin { d with cur := c } [currentLine c]
+  | ["setcur-default", fam] =>
+    match familyOf? fam with
+    | some f => let c := setToDefault d.cur (defaultSetterOfFamily f); fin { d with cur := c } [currentLine c]
+    | none => (d, ["bad-op"])
+  | ["setcur", fam, "null"] =>
+    match familyOf? fam with
+    | some f => let c := setCurrentNull d.cur f; fin { d with cur := c } [currentLine c]
+    | none => (d, ["bad-op"])
+  | ["drop", a] =>
+    -- the client returns an untracked block to the underlying allocator: not the detector's business
+    fin { d with raw := rawErase d.raw (a.toNat?.getD 0) } []
   | ["report", p] =>
     match periodOf? p with
     | some p =>
@@ -284,21 +333,49 @@ def modelStepRaw (d : DState) (op : List String) (obs : List (List String)) : DS
   | ["gacq", form, size, file, line] =>
     -- an acquiring overload: the operator's forwarding, the function-pointer table of the current mode and the function's
     -- own allocator / location / layout, all as regenerated from the source
-    match acquireWrapperOf d.threadSafe form, size.toNat?, line.toNat? with
-    | some w, some size, some line =>
+    match size.toNat?, line.toNat? with
+    | some size, some line =>
       let result := obsResult "ualloc" obs
-      let r := acquireBy w d.cur d.st size file line result true fillByte
-      fin { d with st := r.1 } (r.2.map (renderEv result
-        (showSizes (curEntry d (requiredFamilyOfForm form)) && showSizes (curEntry d (familyOfGetter w.getter)))))
+      let inside := unpark d.ov
+      match gAcquire inside d.cur d.st form size file line result fillByte with
+      | .tracked r =>
+        let getter := (((inside.formFunction form).bind (fun fn => acquireWrappers.find? (fun w => w.name == fn))).map (·.getter)).getD ""
+        fin { d with st := r.1 } (r.2.map (renderEv result
+          (showSizes (curEntry d (requiredFamilyOfForm form)) && showSizes (curEntry d (familyOfGetter getter)))))
+      | .raw "malloc" =>
+        -- the overloads are off: the platform malloc is asked for exactly `size` bytes, the detector sees nothing
+        fin { d with raw := if result = 0 then d.raw else (result, size) :: d.raw } [s!"ualloc {size} {result}", s!"ret {result}"]
+      | _ => (d, ["bad-op"])
+    | _, _ => (d, ["bad-op"])
+  | ["grealloc", addr, size, file, line] =>
+    match addr.toNat?, size.toNat?, line.toNat? with
+    | some addr, some size, some line =>
+      let result := obsResult "urealloc" obs
+      let inside := unpark d.ov
+      match gRealloc inside d.cur d.st addr size file line result fillByte with
+      | .tracked r => fin { d with st := r.1 } (r.2.map (renderEv result (showSizes (curEntry d .malloc))))
+      | .raw "realloc" =>
+        fin { d with raw := if result = 0 then d.raw else (result, size) :: rawErase d.raw addr }
+          [s!"urealloc {addr} {size} {result}", s!"ret {result}"]
+      | _ => (d, ["bad-op"])
     | _, _, _ => (d, ["bad-op"])
   | ["grel", form, addr, file, line] =>
-    match releaseWrapperOf d.threadSafe form, addr.toNat?, line.toNat? with
-    | some w, some addr, some line =>
-      let r := releaseBy w d.cur d.st addr file line
-      -- the size given to free_memory is shown when the allocator the harness expects and the one the code uses both record it
-      fin { d with st := r.1 } (r.2.map (renderEv 0
-        (showSizes (curEntry d (requiredFamilyOfForm form)) && showSizes (curEntry d (familyOfGetter w.getter)))))
-    | _, _, _ => (d, ["bad-op"])
+    match addr.toNat?, line.toNat? with
+    | some addr, some line =>
+      let inside := unpark d.ov
+      match gRelease inside d.cur d.st form addr file line with
+      | .tracked r =>
+        let getter := (((inside.formFunction form).bind (fun fn => releaseWrappers.find? (fun w => w.name == fn))).map (·.getter)).getD ""
+        -- the size given to free_memory is shown when the allocator the harness expects and the one the code uses both record it
+        fin { d with st := r.1 } (r.2.map (renderEv 0
+          (showSizes (curEntry d (requiredFamilyOfForm form)) && showSizes (curEntry d (familyOfGetter getter)))))
+      | .raw "free" =>
+        -- the overloads are off: the pointer goes to the platform free (NULL: nothing happens)
+        if addr = 0 then fin d []
+        else fin { d with raw := rawErase d.raw addr }
+          [s!"ufree {addr} - {Proto.hex (List.replicate (rawSize d addr) fillByte)}"]
+      | _ => (d, ["bad-op"])
+    | _, _ => (d, ["bad-op"])
   | _ => (d, ["bad-op"])
 
 def modelStep (d : DState) (op : List String) (obs : List (List String)) : DState × List String :=
